@@ -125,7 +125,7 @@ def bounded(tier, seed):
     from metapype.model.node import Node
     b = Bounded("datasets with 1..3 spelled-out parties (creator / contact / associatedParty / personnel under project, with ids) and 0..3 referencing "
                 "parties (with and without a role after the references node), in all document orders of a small set; plus all placements of one "
-                "dangling reference or one duplicated id; expansion compared with an independent substitution model, validity before/after, "
+                "dangling reference or one duplicated id (between siblings, between an element and its ancestor, between an element and its descendant); expansion compared with an independent substitution model, validity before/after, "
                 "registry, independence")
     b.rule = "a case is one dataset tree; non-trivial = at least one reference"
     rnd = random.Random(seed)
@@ -134,7 +134,7 @@ def bounded(tier, seed):
     for nsrc in (1, 2):
         for nref in (0, 1, 2, 3):
             for order_seed in range(6 if tier == "quick" else 40):
-                for fault in (None, "dangling", "dup"):
+                for fault in (None, "dangling", "dup", "dup-ancestor", "dup-descendant"):
                     Node.store.clear()
                     ds = Node("dataset")
                     ds.add_child(Node("title", content="t"))
@@ -163,6 +163,12 @@ def bounded(tier, seed):
                                 c.attributes["id"] = "p0"
                     if fault == "dangling" and nref == 0:
                         continue
+                    if fault == "dup-ancestor":          # the same id on an element and on something inside it
+                        ds.add_attribute("id", "p0")
+                    if fault == "dup-descendant":
+                        for c in ds.children:
+                            if c.attributes.get("id") == "p0" and c.children:
+                                c.children[0].add_attribute("id", "p0")
                     # creators must precede contacts for validity: sort children by the dataset rule order
                     order = {"title": 0, "creator": 1, "associatedParty": 2, "contact": 3}
                     ds._children.sort(key=lambda c: order.get(c.name, 9))
